@@ -6,16 +6,29 @@ import threading
 from twisted._threads import AlreadyQuit, Team, createMemoryWorker
 from twisted._threads import _pool as _poolmod
 from twisted._threads._threadworker import StopThread
+from twisted.python import log as _tlog
 from twisted.python import threadpool as _tp
+from twisted.python.failure import Failure
 
 HEADLINE = "TwistedProps.C49.task_conservation"
 RULE = ("op histories over Team.do/grow/shrink/quit, limit changes, ThreadPool.start/stop/adjustPoolsize/"
         "callInThreadWithCallback/startAWorker/stopAWorker, interleaved with schedule steps (coordinator performs one, "
-        "worker i performs one, k-th enabled queue performs one) and a stream of set.pop() choices; exhaustive small "
-        "histories in the thorough tier; distinct = (mode, ops used, #workers created, tasks left pending, quit reached, refusals)")
+        "worker i performs one, k-th enabled queue performs one) and a stream of set.pop() choices; every call's func returns "
+        "or raises and its onResult returns, RAISES or is None (func outcome x callback behaviour, ~half of all calls "
+        "misbehave; a dedicated result-callback generator), exceptions drawn from Exception and BaseException classes "
+        "(ZeroDivisionError, a BaseException subclass, KeyboardInterrupt, SystemExit, GeneratorExit); oracle-only: tasks and "
+        "callbacks that call back into their own pool (submit, grow/shrink/adjust, start/stop/quit, nested twice); exhaustive "
+        "small histories (team alphabet; call alphabet with all six call kinds) in the thorough tier; distinct = (mode, ops used, "
+        "kinds of call actually run, BaseException/re-entrancy used, #workers created, tasks left pending, quit reached, refusals)")
 ASSUMES = [
     "grow(n)/shrink(n) are called with n >= 0 (range(n) of a negative n is empty, as for 0)",
-    "tasks do not call back into the pool while running (a task that submits is the submission op placed right after its step)",
+    "the Lean model has no re-entrant calls: a task / callback that calls back into its pool is covered by the oracle on the real "
+    "objects only (cases with nested ops have no model line). Informally such a call leaves the state its op would leave when "
+    "placed right BEFORE the worker's step (public calls only append to the coordinator queue and read no field the step writes; "
+    "only the log order differs) — this reduction is not machine-checked",
+    "'raises' in the model stands for any BaseException (doWork and inContext catch BaseException); the harness raises Exception "
+    "and non-Exception BaseException classes and the model line forgets the class",
+    "task ids are distinct within a case (the oracle counts runs / onResult invocations / logged failures per id)",
     "the 'unless no worker could ever be created' clause is proved for histories whose limit function changes only through "
     "ThreadPool.start/stop/adjustPoolsize (a raw change is never signalled to Team: silent_limit_raise_starves) and for states "
     "before quit() (after quit a refused start() can raise the limit without a grow: start_after_stop_leaves_backlog); "
@@ -26,6 +39,8 @@ ASSUMES = [
 TRUSTED = [
     "Team._idle is replaced by a set-like object whose pop() follows the case's choice stream (set.pop() is 'arbitrary'); "
     "every other Team/MemoryWorker/ThreadWorker/ThreadPool method runs unmodified",
+    "a twisted.python.log observer records inContext's log.err(failure) (by identity of the exception instance func raised); "
+    "twisted's pre-logging stderr observer is detached while a case runs",
     "pool mode: ThreadPool._pool hook builds the team with the real pool()/limitedWorkerCreator/ThreadWorker, with a fake Thread, "
     "a fake Queue stepped one item at a time through the real ThreadWorker work() loop, and a MemoryWorker coordinator",
 ]
@@ -43,7 +58,8 @@ MANIFEST = {
             "_team.py/_memory.py/_pool.py/threadpool.py by stepping the real objects with the same schedule; the oracle evaluates "
             "the same clauses on the real objects on every run.",
     "note": "partial for real threads: Lock/Queue/Thread are assumed to implement the worker contract; stress runs with real "
-            "threads only check the schedule-independent observables",
+            "threads only check the schedule-independent observables (incl. misbehaving callbacks). Re-entrant calls from a running "
+            "task / callback are judged by the oracle only (not in the Lean model)",
     "technique": "Lean 4 proof (inductive invariant over all op histories) + differential tie with explicit schedules",
     "design_ref": "DESIGN.md §7.7 C49",
 }
@@ -51,6 +67,26 @@ MANIFEST = {
 
 # ----------------------------------------------------------------------------------------
 # running the real code under an explicit schedule
+
+class _Boom(BaseException):
+    """a BaseException that is not an Exception (Team.doWork and ThreadPool.inContext catch BaseException)"""
+
+
+# exception classes tasks / callbacks raise (index 0 is the default); the model abstracts over the class
+EXC = [ZeroDivisionError, _Boom, KeyboardInterrupt, SystemExit, GeneratorExit]
+# what onResult is: a callback that returns, a callback that raises, None
+CB_RETURNS, CB_RAISES, CB_NONE = 0, 1, 2
+# ops a running task / a running callback may perform on the pool it runs in (re-entrant calls)
+NESTED_OK = ("d", "p", "g", "s", "q", "j", "+", "~", "S", "X", "l")
+
+
+def _extra(op):
+    return op[3] if len(op) > 3 and isinstance(op[3], dict) else {}
+
+
+def _has_nested(case):
+    return any(_extra(op).get("ops") for op in case.get("ops", []))
+
 
 class ChoiceSet:
     """set-like with the methods Team uses on _idle; pop() follows the choice stream."""
@@ -143,6 +179,14 @@ class Rig:
         self.live_at_create = []   # oracle: (independent live count, limit) at each creation
         self.crashed = None
         self.tids, self._keep, self._submitting = {}, [], None   # Team keeps the callables in _pending: which task is which
+        self.reports = {}          # call id -> [(ok flag, payload is what func produced)] — every onResult invocation
+        self.errlogged = {}        # call id -> number of log.err(failure) for func's own exception
+        self.exc_of = {}           # id(exception instance) -> ("f"|"c", task id)
+        self.submissions = []      # every do / callInThreadWithCallback attempt, top level or re-entrant
+        self.top = -1              # index of the top-level op being applied
+        self.quit_at = None        # index of the top-level op during which Team.quit() first returned normally
+        self.depth = 0
+        self.raw_limit = False
         self.coordinator, self.coordinate_once = createMemoryWorker()
         realq = self.coordinator.quit
 
@@ -196,6 +240,8 @@ class Rig:
                 raise
             if name == "do":
                 self.log.append(f"ac{self._submitting}")
+            if name == "quit" and self.quit_at is None:
+                self.quit_at = self.top
             return r
         setattr(self.team, name, wrapped)
 
@@ -256,7 +302,29 @@ class Rig:
         return factory
 
     # -- tasks ------------------------------------------------------------------------
-    def task(self, t, raises):
+    def _raise(self, who, t, cls):
+        e = EXC[cls % len(EXC)](t)
+        self._keep.append(e)
+        self.exc_of[id(e)] = (who, t)
+        raise e
+
+    def nested(self, ops):
+        """re-entrant public calls made by a running task / callback"""
+        for op in ops or ():
+            op = tuple(op)
+            if op[0] not in NESTED_OK:
+                raise ValueError(op)
+            saved = self._submitting
+            self.depth += 1
+            try:
+                self.apply(op)
+            finally:
+                self.depth -= 1
+                self._submitting = saved
+
+    def task(self, t, raises, extra=None):
+        extra = extra or {}
+
         def body():
             self.running += 1
             if self.running > 1:
@@ -264,12 +332,47 @@ class Rig:
             try:
                 self.log.append(f"r{t}@{self.current}")
                 self.failing = t
+                if extra.get("in") == "f":
+                    self.nested(extra.get("ops"))
+                    self.failing = t
                 if raises:
-                    raise ZeroDivisionError(t)
-                return t
+                    self._raise("f", t, extra.get("fx", 0))
+                return ("value", t)
             finally:
                 self.running -= 1
         return body
+
+    def on_result(self, t, extra):
+        """the onResult argument: None, or a callback that records its invocation and then returns / raises"""
+        cb = extra.get("cb", CB_RETURNS)
+        if cb == CB_NONE:
+            return None
+
+        def onResult(ok, res):
+            if ok:
+                genuine = res == ("value", t)
+            else:
+                genuine = isinstance(res, Failure) and self.exc_of.get(id(res.value)) == ("f", t)
+            self.reports.setdefault(t, []).append((bool(ok), genuine))
+            self.log.append(f"o{t}" + ("+" if ok else "-"))
+            if extra.get("in") == "c":
+                self.nested(extra.get("ops"))
+                self.failing = t
+            if cb == CB_RAISES:
+                self._raise("c", t, extra.get("cx", 0))
+        return onResult
+
+    def observe(self, event):
+        """twisted.python.log observer: the log.err(failure) of inContext (Team's logException is `e<t>`)"""
+        if not event.get("isError"):
+            return
+        f = event.get("failure")
+        who, t = self.exc_of.get(id(f.value), ("?", "?")) if f is not None else ("?", "?")
+        if who == "f":
+            self.errlogged[t] = self.errlogged.get(t, 0) + 1
+            self.log.append(f"le{t}")
+        else:
+            self.log.append(f"le?{who}{t}")
 
     # -- ops --------------------------------------------------------------------------
     def enabled(self):
@@ -307,8 +410,14 @@ class Rig:
             return
         k, a = op[0], op[1:]
         team, pool = self.team, self.pool
+        if k in ("d", "p"):
+            self._submitting = a[0]
+            extra = _extra(op)
+            sub = {"t": a[0], "kind": k, "i": self.top, "nested": self.depth > 0, "raises": bool(a[1]),
+                   "cb": extra.get("cb", CB_RETURNS) if k == "p" else None, "quit_before": self.quit_at is not None}
+            before = len(self.log)
         if k == "d":
-            self.guard(0, lambda: team.do(self.task(a[0], a[1])))
+            self.guard(0, lambda: team.do(self.task(a[0], a[1], extra)))
         elif k == "g":
             self.guard(1, lambda: team.grow(a[0]))
         elif k == "s":
@@ -317,6 +426,7 @@ class Rig:
             self.guard(3, team.quit)
         elif k == "l":
             self.limit = a[0]
+            self.raw_limit = True
         elif k == "c":
             self.step(None)
         elif k == "w":
@@ -333,8 +443,11 @@ class Rig:
             t = a[0]
             if pool.joined:
                 self.log.append(f"dr{t}")
-            self.guard(0, lambda: pool.callInThreadWithCallback(
-                lambda ok, res: self.log.append(f"o{t}" + ("+" if ok else "-")), self.task(t, a[1])))
+            cb = self.on_result(t, extra)
+            if cb is None and t % 2:      # onResult None: through the public callInThread wrapper half of the time
+                self.guard(0, lambda: pool.callInThread(self.task(t, a[1], extra)))
+            else:
+                self.guard(0, lambda: pool.callInThreadWithCallback(cb, self.task(t, a[1], extra)))
         elif k == "j":
             try:
                 pool.adjustPoolsize(a[0], a[1])
@@ -348,6 +461,9 @@ class Rig:
             self.guard(2, pool.stopAWorker)
         else:
             raise ValueError(op)
+        if k in ("d", "p"):
+            sub["refused"] = any(x.startswith("x") or x.startswith("dr") for x in self.log[before:])
+            self.submissions.append(sub)
 
     def show(self):
         if self.crashed:
@@ -374,14 +490,27 @@ class Rig:
         return self.tids.get(id(task), "?")
 
 
+def _quiet():
+    """keep twisted's pre-logging 'print critical events to stderr' observer out of the way; → restore()"""
+    from twisted.logger import globalLogBeginner, globalLogPublisher
+    obs = getattr(globalLogBeginner, "_temporaryObserver", None)
+    if obs is None:
+        return lambda: None
+    globalLogPublisher.removeObserver(obs)
+    return lambda: globalLogPublisher.addObserver(obs)
+
+
 def _run(case):
     """→ (rig, observable line, per-op snapshots for the oracle)"""
     mode = case["mode"]
     rig = Rig(mode, case.get("choices", []), limit=case.get("limit", 0), mn=case.get("min", 0), mx=case.get("max", 0))
     snaps = []
+    restore = _quiet()
+    _tlog.addObserver(rig.observe)
     try:
-        for op in case["ops"]:
+        for n, op in enumerate(case["ops"]):
             op = tuple(op)
+            rig.top = n
             rig._submitting = op[1] if op[0] in ("d", "p") else None
             before = len(rig.log)
             rig.did = False
@@ -391,6 +520,8 @@ def _run(case):
                           "backlog": len(rig.team._pending), "enabled": len(rig.enabled()), "did": rig.did})
         out = rig.show()
     finally:
+        _tlog.removeObserver(rig.observe)
+        restore()
         rig.close()
     return rig, out, snaps
 
@@ -442,31 +573,45 @@ def oracle(case, out):
     for w, n in enumerate(rig.qlen):
         if n() > 1:
             return {"key": "two-tasks-one-worker", "detail": f"worker {w} holds {n()} tasks"}
-    # (4) submissions: accepted before quit, refused after
-    accepted, quit_at, results = [], None, {}
-    for i, s in enumerate(snaps):
-        op = s["op"]
-        if op[0] in ("q", "X") and quit_at is None and not any(x.startswith("x") for x in s["new"]):
-            quit_at = i
-        if op[0] in ("d", "p"):
-            refused = any(x.startswith("x") or x.startswith("dr") for x in s["new"])
-            if quit_at is not None and not refused:
-                return {"key": "accepted-after-quit", "detail": f"op {i} {op} accepted after quit"}
-            if quit_at is None and refused:
-                return {"key": "refused-before-quit", "detail": f"op {i} {op} refused before quit"}
-            if not refused:
-                accepted.append((op[1], i, op[0]))
-    for e in log:
-        if e.startswith("o"):
-            t = int(e[1:-1])
-            results[t] = results.get(t, 0) + 1
-    over = [t for t, n in results.items() if n > 1]
-    if over:
-        return {"key": "result-twice", "detail": f"onResult called more than once for {over}"}
-    for t, i, kind in accepted:
-        if kind == "p" and runs.get(t, 0) != results.get(t, 0):
-            return {"key": "result-missing", "detail": f"call {t} ran {runs.get(t, 0)} times, onResult {results.get(t, 0)} times"}
-    ran_unaccepted = set(runs) - {t for t, _, _ in accepted}
+    # (4) submissions (top-level or made re-entrantly by a running task / callback): accepted before quit, refused after
+    accepted, quit_at = [], rig.quit_at
+    for sub in rig.submissions:
+        what = f"{'re-entrant ' if sub['nested'] else ''}submission of {sub['t']} during op {sub['i']}"
+        if sub["quit_before"] and not sub["refused"]:
+            return {"key": "accepted-after-quit", "detail": f"{what} accepted after quit"}
+        if not sub["quit_before"] and sub["refused"]:
+            return {"key": "refused-before-quit", "detail": f"{what} refused before quit"}
+        if not sub["refused"]:
+            accepted.append(sub)
+    # (4b) every callInThreadWithCallback reports its outcome exactly once: onResult is invoked once per call that ran
+    #      (never twice — whatever onResult itself does, e.g. raise), with ok = "func returned" and func's own
+    #      value / Failure; with onResult None the outcome of a failed call is log.err'ed once instead
+    for sub in accepted:
+        if sub["kind"] != "p":
+            continue
+        t, ran, reps = sub["t"], runs.get(sub["t"], 0), rig.reports.get(sub["t"], [])
+        shown = [("+" if ok else "-") + ("" if genuine else "(foreign payload)") for ok, genuine in reps]
+        if sub["cb"] == CB_NONE:
+            want = ran if sub["raises"] else 0
+            if rig.errlogged.get(t, 0) != want:
+                return {"key": "failure-log-count", "detail": f"call {t} without callback (func {'raises' if sub['raises'] else 'returns'}, "
+                                                              f"ran {ran}x): failure logged {rig.errlogged.get(t, 0)} times, expected {want}"}
+            continue
+        if len(reps) > ran or len(reps) > 1:
+            return {"key": "result-twice", "detail": f"call {t} (func {'raises' if sub['raises'] else 'returns'}, callback "
+                                                     f"{'raises' if sub['cb'] == CB_RAISES else 'returns'}) ran {ran}x but onResult was invoked "
+                                                     f"{len(reps)} times: {shown}; log {';'.join(log)}"}
+        if len(reps) < ran:
+            return {"key": "result-missing", "detail": f"call {t} ran {ran} times, onResult {len(reps)} times"}
+        for ok, genuine in reps:
+            if ok != (not sub["raises"]):
+                return {"key": "result-wrong-flag", "detail": f"call {t}: func {'raised' if sub['raises'] else 'returned'} but onResult got ok={ok}"}
+            if not genuine:
+                return {"key": "result-wrong-value", "detail": f"call {t}: onResult({ok}, …) was not given what func produced"}
+    stray = set(rig.reports) - {sub["t"] for sub in accepted if sub["kind"] == "p" and sub["cb"] != CB_NONE}
+    if stray:
+        return {"key": "result-unowned", "detail": f"onResult invoked for {sorted(stray)} which were not accepted callback calls"}
+    ran_unaccepted = set(runs) - {sub["t"] for sub in accepted}
     if ran_unaccepted:
         return {"key": "ran-refused", "detail": f"refused task(s) {sorted(ran_unaccepted)} ran"}
     # (5) quiescent end: every accepted task ran once unless no worker existed or could be created.
@@ -476,8 +621,9 @@ def oracle(case, out):
     #     (Team is never told; see TwistedProps.C49.silent_limit_raise_starves): limit changes go through ThreadPool.
     if not snaps or snaps[-1]["enabled"] != 0:
         return None
-    raw_limit = any(s["op"][0] == "l" for s in snaps)
-    for t, i, kind in accepted:
+    raw_limit = rig.raw_limit
+    for sub in accepted:
+        t, i = sub["t"], sub["i"]
         if runs.get(t, 0) == 1:
             continue
         if rig.live() > 0:
@@ -512,10 +658,18 @@ def _run_threads(case):
     pool = _tp.ThreadPool(case["min"], case["max"], name="c49")
     lock = threading.Lock()
     runs, results, active, bad = {}, {}, {}, []
+    flogged, clogged, exc_of, keep = {}, {}, {}, []
     n = case["tasks"]
-    done = threading.Semaphore(0)
+    faults = case.get("faults", False)     # callbacks that raise / are None, BaseException classes
 
-    def mk(t, raises):
+    def boom(who, t, cls):
+        e = EXC[cls % len(EXC)](t)
+        with lock:
+            keep.append(e)
+            exc_of[id(e)] = (who, t)
+        raise e
+
+    def mk(t, raises, cls):
         def body():
             me = threading.current_thread()
             with lock:
@@ -527,50 +681,97 @@ def _run_threads(case):
                     bad.append("more tasks in flight than max")
             try:
                 if raises:
-                    raise ZeroDivisionError(t)
-                return t
+                    boom("f", t, cls)
+                return ("value", t)
             finally:
                 with lock:
                     active[me] -= 1
         return body
 
-    def on(t):
-        def cb(ok, res):
+    def on(t, cb, cls):
+        if cb == CB_NONE:
+            return None
+
+        def onResult(ok, res):
             with lock:
-                results[t] = results.get(t, 0) + 1
-            done.release()
-        return cb
-    pre = rng.randint(0, n // 2) if case.get("prestart") else 0
-    for t in range(pre):
-        pool.callInThreadWithCallback(on(t), mk(t, rng.random() < 0.3))
-    pool.start()
+                genuine = (res == ("value", t)) if ok else (isinstance(res, Failure) and exc_of.get(id(res.value)) == ("f", t))
+                results.setdefault(t, []).append((bool(ok), genuine))
+            if cb == CB_RAISES:
+                boom("c", t, cls)
+        return onResult
+
+    def observe(event):
+        if not event.get("isError") or event.get("failure") is None:
+            return
+        with lock:
+            who, t = exc_of.get(id(event["failure"].value), ("?", None))
+            d = flogged if who == "f" else clogged
+            d[t] = d.get(t, 0) + 1
+
+    plan = []
+    for t in range(n + 1):
+        raises = rng.random() < 0.3
+        cb = rng.choice([CB_RETURNS, CB_RETURNS, CB_RAISES, CB_RAISES, CB_NONE]) if faults else CB_RETURNS
+        cls = rng.randrange(len(EXC)) if faults else 0
+        plan.append((raises, cb, cls, rng.randrange(len(EXC)) if faults else 0))
+
+    def submit(t):
+        raises, cb, fcls, ccls = plan[t]
+        if cb == CB_NONE and t % 2:
+            pool.callInThread(mk(t, raises, fcls))
+        else:
+            pool.callInThreadWithCallback(on(t, cb, ccls), mk(t, raises, fcls))
+    restore = _quiet()
+    _tlog.addObserver(observe)
     try:
-        for t in range(pre, n):
-            pool.callInThreadWithCallback(on(t), mk(t, rng.random() < 0.3))
-            r = rng.random()
-            if r < 0.1 and "max2" in case:
-                pool.adjustPoolsize(case["min"], case["max2"] if rng.random() < 0.5 else case["max"])
-            elif r < 0.15:
-                pool.startAWorker()
-            elif r < 0.2:
-                pool.stopAWorker()
+        pre = rng.randint(0, n // 2) if case.get("prestart") else 0
+        for t in range(pre):
+            submit(t)
+        pool.start()
+        try:
+            for t in range(pre, n):
+                submit(t)
+                r = rng.random()
+                if r < 0.1 and "max2" in case:
+                    pool.adjustPoolsize(case["min"], case["max2"] if rng.random() < 0.5 else case["max"])
+                elif r < 0.15:
+                    pool.startAWorker()
+                elif r < 0.2:
+                    pool.stopAWorker()
+        finally:
+            pool.stop()
+        alive = [th for th in pool.threads if th.is_alive()]
+        if alive:
+            bad.append(f"{len(alive)} pool thread(s) alive after stop()")
+        try:
+            submit(n)
+        except AlreadyQuit:
+            pass
     finally:
-        pool.stop()
-    alive = [th for th in pool.threads if th.is_alive()]
-    if alive:
-        bad.append(f"{len(alive)} pool thread(s) alive after stop()")
-    try:
-        pool.callInThreadWithCallback(on(n), mk(n, False))
-    except AlreadyQuit:
-        pass
+        _tlog.removeObserver(observe)
+        restore()
     with lock:
         if n in runs:
             bad.append("task submitted after stop() ran")
         for t in range(n):
+            raises, cb, _, _ = plan[t]
+            what = f"task {t} (func {'raises' if raises else 'returns'}, callback {('returns', 'raises', 'None')[cb]})"
             if runs.get(t, 0) != 1:
-                bad.append(f"task {t} ran {runs.get(t, 0)} times")
-            if results.get(t, 0) != 1:
-                bad.append(f"task {t} reported {results.get(t, 0)} times")
+                bad.append(f"{what} ran {runs.get(t, 0)} times")
+            reps = results.get(t, [])
+            if cb != CB_NONE:
+                if len(reps) != 1:
+                    bad.append(f"{what} reported {len(reps)} times: {reps}")
+                elif reps[0] != (not raises, True):
+                    bad.append(f"{what} reported wrongly: {reps}")
+            want = 1 if (cb == CB_NONE and raises) else 0
+            if flogged.get(t, 0) != want:
+                bad.append(f"{what}: func's failure logged {flogged.get(t, 0)} times, expected {want}")
+            want = 1 if cb == CB_RAISES else 0
+            if clogged.get(t, 0) != want:
+                bad.append(f"{what}: callback's exception logged {clogged.get(t, 0)} times, expected {want}")
+        if clogged.get(None) or flogged.get(None):
+            bad.append("an error of unknown origin was logged")
     return "ok" if not bad else "; ".join(bad[:4])
 
 
@@ -582,7 +783,7 @@ def _enc_op(op):
     if k == "d":
         return ("D" if op[2] else "d") + str(op[1])
     if k == "p":
-        return ("P" if op[2] else "p") + str(op[1])
+        return ("P" if op[2] else "p") + str(op[1]) + {CB_RETURNS: "", CB_RAISES: "!", CB_NONE: "_"}[_extra(op).get("cb", CB_RETURNS)]
     if k == "s":
         return "sN" if op[1] is None else f"s{op[1]}"
     if k in ("g", "l", "w", "a"):
@@ -593,8 +794,8 @@ def _enc_op(op):
 
 
 def model_line(case):
-    if case["mode"] == "threads":
-        return None
+    if case["mode"] == "threads" or _has_nested(case):
+        return None         # oracle-only: real threads; tasks / callbacks that call back into the pool
     ch = ".".join(str(c) for c in case.get("choices", [])) or "-"
     ops = ",".join(_enc_op(op) for op in case["ops"]) or "-"
     if case["mode"] == "team":
@@ -623,7 +824,49 @@ def corpus():
         {"mode": "pool", "min": 0, "max": 3, "choices": [], "ops": [["p", 7, False], ["c"], ["X"], ["S"], ["c"]]},
         {"mode": "pool", "min": 0, "max": 3, "choices": [], "ops": [["p", 7, False], ["c"], ["S"], ["a", 0], ["a", 0], ["a", 0]]},
         {"mode": "threads", "min": 0, "max": 3, "tasks": 40, "seed": 1, "prestart": True},
+        # faults inside the result callback (seeded regression C49-2: func returns, onResult(True, …) raises → must not be
+        # reported a second time as a failure), on both outcomes, every exception class, and onResult None
+        {"mode": "pool", "min": 0, "max": 1, "choices": [], "ops": [["S"], ["p", 0, False, {"cb": CB_RAISES}]] + _drain(6)},
+        {"mode": "pool", "min": 0, "max": 2, "choices": [], "ops": [["S"]] + [
+            ["p", 3 * c + k, bool(r), {"cb": k, "fx": c, "cx": (c + 1) % len(EXC)}]
+            for c in range(len(EXC)) for k in (CB_RETURNS, CB_RAISES, CB_NONE) for r in ((c + k) % 2,)] + _drain(70) + [["X"]] + _drain(8)},
+        {"mode": "pool", "min": 0, "max": 2, "choices": [], "ops": [["S"]] + [
+            ["p", 3 * c + k, not bool(r), {"cb": k, "fx": c, "cx": c}]
+            for c in range(len(EXC)) for k in (CB_RETURNS, CB_RAISES, CB_NONE) for r in ((c + k) % 2,)] + _drain(70)},
+        {"mode": "pool", "min": 1, "max": 1, "choices": [], "ops": [
+            ["p", 0, False, {"cb": CB_RAISES, "cx": 1}], ["p", 1, True, {"cb": CB_RAISES}], ["p", 2, True, {"cb": CB_NONE, "fx": 2}],
+            ["S"], ["p", 3, False, {"cb": CB_RAISES, "cx": 3}], ["X"], ["p", 4, False, {"cb": CB_RAISES}]] + _drain(30)},
+        {"mode": "team", "limit": 1, "choices": [], "ops": [["d", 0, True, {"fx": 1}], ["d", 1, True, {"fx": 2}], ["d", 2, True, {"fx": 3}],
+                                                             ["d", 3, True, {"fx": 4}], ["q"]] + _drain(20)},
+        # tasks / callbacks that call back into the pool they run in (oracle-only)
+        {"mode": "pool", "min": 0, "max": 2, "choices": [], "ops": [["S"], ["p", 0, False, {"cb": CB_RAISES, "in": "c", "ops": [["p", 1, True, {"cb": CB_RAISES}], ["j", 0, 1]]}],
+                                                                   ["p", 2, True, {"in": "f", "ops": [["p", 3, False, {"cb": CB_NONE}], ["~"]]}]] + _drain(40) + [["X"]] + _drain(8)},
+        {"mode": "pool", "min": 0, "max": 1, "choices": [], "ops": [["S"], ["p", 0, False, {"in": "c", "ops": [["X"], ["p", 1, False]]}], ["p", 2, False, {"cb": CB_RAISES}]] + _drain(30)},
+        {"mode": "team", "limit": 1, "choices": [], "ops": [["d", 0, True, {"in": "f", "ops": [["d", 1, False], ["q"], ["d", 2, False]]}], ["d", 3, False]] + _drain(30)},
+        {"mode": "team", "limit": 2, "choices": [1], "ops": [["d", 0, False, {"in": "f", "ops": [["g", 2], ["d", 1, True, {"in": "f", "ops": [["s", None], ["d", 2, False]]}]]}]] + _drain(40) + [["q"]] + _drain(8)},
+        {"mode": "threads", "min": 0, "max": 3, "max2": 5, "tasks": 60, "seed": 2, "prestart": True, "faults": True},
     ]
+
+
+def _call_extra(rng, p_fault=0.5):
+    """how the callback behaves and which exception classes are raised"""
+    extra = {}
+    if rng.random() < p_fault:
+        extra["cb"] = rng.choice([CB_RAISES, CB_RAISES, CB_RAISES, CB_NONE, CB_NONE])
+    if rng.random() < 0.4:
+        extra["fx"] = rng.randrange(len(EXC))
+    if rng.random() < 0.4:
+        extra["cx"] = rng.randrange(len(EXC))
+    return extra
+
+
+def _p(rng, t, p_fault=0.5):
+    extra = _call_extra(rng, p_fault)
+    return ["p", t, rng.random() < 0.3] + ([extra] if extra else [])
+
+
+def _d(rng, t):
+    return ["d", t, rng.random() < 0.3] + ([{"fx": rng.randrange(len(EXC))}] if rng.random() < 0.3 else [])
 
 
 def _team_case(rng, big):
@@ -634,7 +877,7 @@ def _team_case(rng, big):
     for _ in range(n):
         r = rng.random()
         if r < 0.28:
-            ops.append(["d", t, rng.random() < 0.3])
+            ops.append(_d(rng, t))
             t += 1
         elif r < 0.36:
             ops.append(["g", rng.choice([0, 1, 1, 2, 3])])
@@ -667,7 +910,7 @@ def _pool_case(rng, big):
     for _ in range(n):
         r = rng.random()
         if r < 0.3:
-            ops.append(["p", t, rng.random() < 0.3])
+            ops.append(_p(rng, t))
             t += 1
         elif r < 0.36:
             a = rng.choice([None, 0, 1, 2, 3, -1])
@@ -709,7 +952,7 @@ def _pool_phase_case(rng):
         r = rng.random()
         if r < 0.45:
             for _ in range(rng.randint(1, 3)):
-                ops.append(["p", t, rng.random() < 0.3])
+                ops.append(_p(rng, t))
                 t += 1
         elif r < 0.8:
             a = rng.choice([None, None, 0, 1])
@@ -726,6 +969,102 @@ def _pool_phase_case(rng):
             ops += _drain(rng.choice([1, 2, 30]), rng)
     ops += _drain(40, rng)
     return {"mode": "pool", "min": mn, "max": mx, "choices": [rng.randint(0, 3) for _ in range(rng.randint(0, 3))], "ops": ops}
+
+
+def _cb_case(rng, big):
+    """the result-callback class: a pool (started before / in the middle / never) given calls whose func returns or raises
+    and whose onResult returns, raises or is None, interleaved with schedule steps; then drained, stopped, drained"""
+    mn = rng.choice([0, 0, 1])
+    mx = max(mn, rng.choice([1, 1, 2, 3]))
+    ops, t = [], 0
+    start_at = rng.choice([0, 0, 0, 1, 2, 99])
+    for phase in range(rng.randint(1, 5 if big else 3)):
+        if phase == start_at:
+            ops.append(["S"])
+        for _ in range(rng.randint(1, 4)):
+            ops.append(_p(rng, t, 0.75))
+            t += 1
+            if rng.random() < 0.4:
+                ops += _drain(rng.randint(1, 4), rng)
+        if rng.random() < 0.15:
+            ops.append(rng.choice([["j", None, rng.choice([1, 2])], ["+"], ["~"]]))
+    ops += _drain(rng.choice([3, 6 * t + 8]), rng)
+    if rng.random() < 0.6:
+        ops.append(["X"])
+        if rng.random() < 0.5:
+            ops.append(_p(rng, t, 0.75))
+        ops += _drain(4 * t + 8, rng)
+    return {"mode": "pool", "min": mn, "max": mx, "choices": [rng.randint(0, 3) for _ in range(rng.randint(0, 3))], "ops": ops}
+
+
+def _nested_case(rng, big):
+    """oracle-only: a running func / a running onResult / a running Team task makes public calls on its own pool"""
+    ids = itertools.count(1000)
+    pool = rng.random() < 0.6
+
+    def inner(depth):
+        out = []
+        for _ in range(rng.randint(1, 3)):
+            r = rng.random()
+            if r < 0.55:
+                out.append(sub(depth + 1))
+            elif pool:
+                out.append(rng.choice([["j", rng.choice([None, 0, 1]), rng.choice([None, 1, 2, 3])], ["+"], ["~"], ["X"], ["S"]]))
+            else:
+                out.append(rng.choice([["g", rng.choice([1, 2])], ["s", rng.choice([None, 1])], ["q"], ["l", rng.choice([0, 1, 2])]]))
+        return out
+
+    def sub(depth):
+        t = next(ids)
+        if pool and rng.random() < 0.9:
+            op = _p(rng, t)
+            extra = _extra(op)
+            if not extra:
+                extra = {}
+                op.append(extra)
+            if depth < 2 and rng.random() < (0.9 if depth == 0 else 0.3):
+                extra["in"] = rng.choice(["f", "c"]) if extra.get("cb", CB_RETURNS) != CB_NONE else "f"
+                extra["ops"] = inner(depth)
+            return op
+        op = ["d", t, rng.random() < 0.3, {}]
+        if depth < 2 and rng.random() < (0.9 if depth == 0 else 0.3):
+            op[3] = {"in": "f", "ops": inner(depth)}
+        return op
+    ops = [["S"]] if pool and rng.random() < 0.85 else []
+    for _ in range(rng.randint(1, 6 if big else 3)):
+        ops.append(sub(0))
+        if rng.random() < 0.5:
+            ops += _drain(rng.randint(1, 5), rng)
+    ops += _drain(60, rng)
+    if rng.random() < 0.5:
+        ops += [["X"] if pool else ["q"]] + _drain(20, rng)
+    case = {"mode": "pool" if pool else "team", "choices": [rng.randint(0, 3) for _ in range(rng.randint(0, 3))], "ops": ops}
+    if pool:
+        mn = rng.choice([0, 0, 1])
+        case.update(min=mn, max=max(mn, rng.choice([1, 2, 3])))
+    else:
+        case["limit"] = rng.choice([1, 1, 2, 3])
+    return case
+
+
+def _exhaustive_calls(rng):
+    """every history of length <= 4 over the call alphabet (func returns/raises × onResult returns/raises/None), start,
+    stop and single steps, each followed by a drain"""
+    alpha = [["S"], ["X"], ["c"], ["a", 1]]
+    for r in (False, True):
+        for cb in (CB_RETURNS, CB_RAISES, CB_NONE):
+            alpha.append(["p", None, r, {"cb": cb}])
+    for mx in (1, 2):
+        for n in range(1, 5):
+            for hist in itertools.product(alpha, repeat=n):
+                if sum(1 for h in hist if h[0] == "S") > 1 or sum(1 for h in hist if h[0] == "X") > 1:
+                    continue
+                if n == 4 and rng.random() < 0.7:
+                    continue
+                ops = []
+                for i, h in enumerate(hist):
+                    ops.append([h[0], i] + h[2:] if h[0] == "p" else list(h))
+                yield {"mode": "pool", "min": 0, "max": mx, "choices": [], "ops": ops + _drain(16)}
 
 
 def _exhaustive(rng):
@@ -747,18 +1086,30 @@ def generate(rng, tier):
     n = 1200 if not big else 25000
     for i in range(n):
         r = rng.random()
-        yield _team_case(rng, big) if r < 0.5 else _pool_case(rng, big) if r < 0.8 else _pool_phase_case(rng)
+        if r < 0.35:
+            yield _team_case(rng, big)
+        elif r < 0.6:
+            yield _pool_case(rng, big)
+        elif r < 0.72:
+            yield _pool_phase_case(rng)
+        elif r < 0.9:
+            yield _cb_case(rng, big)
+        else:
+            yield _nested_case(rng, big)
     for i in range(6 if not big else 60):
         mx = rng.choice([1, 2, 4])
         yield {"mode": "threads", "min": rng.choice([0, 1]), "max": mx, "max2": rng.choice([1, 3, 5]),
-               "tasks": rng.choice([10, 50, 120]), "seed": rng.randint(0, 10 ** 6), "prestart": rng.random() < 0.5}
+               "tasks": rng.choice([10, 50, 120]), "seed": rng.randint(0, 10 ** 6), "prestart": rng.random() < 0.5,
+               "faults": i % 2 == 0}
     if big:
         yield from _exhaustive(rng)
+        yield from _exhaustive_calls(rng)
 
 
 def search(rng, tier, disagreeing):
     for i in range(4000):
-        yield _team_case(rng, True) if rng.random() < 0.6 else _pool_case(rng, True)
+        r = rng.random()
+        yield _team_case(rng, True) if r < 0.4 else _pool_case(rng, True) if r < 0.7 else _cb_case(rng, True) if r < 0.9 else _nested_case(rng, True)
 
 
 def shrink(case):
@@ -773,12 +1124,33 @@ def shrink(case):
             yield dict(case, ops=ops[:i] + [["a", 0]] + ops[i + 1:])
     if case.get("choices"):
         yield dict(case, choices=case["choices"][:-1])
+    # simplify what a call does: drop re-entrant ops one at a time, default exception classes, well-behaved callback
+    for i, op in enumerate(ops):
+        extra = _extra(op)
+        if not extra:
+            continue
+        cands = []
+        for j in range(len(extra.get("ops") or [])):
+            cands.append(dict(extra, ops=extra["ops"][:j] + extra["ops"][j + 1:]))
+        for key in ("ops", "in", "fx", "cx", "cb"):
+            if key in extra:
+                cands.append({k: v for k, v in extra.items() if k != key})
+        for e in cands:
+            if not e.get("ops"):
+                e.pop("ops", None)
+                e.pop("in", None)
+            yield dict(case, ops=ops[:i] + [list(op[:3]) + ([e] if e else [])] + ops[i + 1:])
 
 
 def tag(case, out):
     if case["mode"] == "threads":
         return f"threads:{case['min']}:{case['max']}:{case['tasks'] > 20}"
     kinds = "".join(sorted({op[0] for op in case["ops"]}))
+    # which kinds of call (func outcome × callback behaviour) were actually called, BaseException classes, re-entrancy
+    calls = "".join(sorted({("PF"[0] if not op[2] else "F") + "rxn"[_extra(op).get("cb", CB_RETURNS)]
+                            for op in case["ops"] if op[0] == "p" and f";r{op[1]}@" in out.replace("=r", ";r")}))
+    base = "B" if any(_extra(op).get("fx", 0) or _extra(op).get("cx", 0) for op in case["ops"]) else "-"
+    kinds += ":" + calls + base + ("N" if _has_nested(case) else "")
     created = out.count(";c") + (1 if out.startswith("log=c") else 0)
     pend = "P" if "|pend=|" not in out else "-"
     return f"{case['mode']}:{kinds}:w{min(created, 4)}:{pend}:{'cq' if ';cq' in out or '=cq' in out else '-'}:{'x' if 'x' in out.split('|')[0] else '-'}"
